@@ -120,6 +120,9 @@ theorem source_rcRecoverSingleEvent : GeneratedSrc.rcRecoverSingleEvent = Expect
 theorem source_kcSetup : GeneratedSrc.kcSetup = ExpectedSrc.kcSetup := by rfl
 theorem source_revokePartitionAssignments : GeneratedSrc.revokePartitionAssignments = ExpectedSrc.revokePartitionAssignments := by rfl
 
+/-! ### one recovery consumer per source: Start is where it is shut down -/
+theorem source_kcStart : GeneratedSrc.kcStart = ExpectedSrc.kcStart := by rfl
+
 /-! ### influence closure: the pinned functions, and every function of the repository that writes a struct field or package
 variable they read, are unchanged (digests regenerated from /repo on every run; a difference names the functions) -/
 theorem closure_unchanged : GeneratedClo.C19 = ExpectedClo.C19 := by rfl
